@@ -324,6 +324,11 @@ pub fn txin(r: &mut Rg, d: &TxDials, coinbase: bool) -> TxIn {
         if d.issuance && chance(r, 1, 3) {
             i.asset_issuance = issuance(r);
         }
+        // index 2^30-1 with both flags would serialize as 0xffffffff, which the format
+        // reserves for "coinbase, no flags": not a canonical value, never generated
+        if i.previous_output.vout == (1 << 30) - 1 && i.is_pegin && !i.asset_issuance.is_null() {
+            i.previous_output.vout -= 1;
+        }
     }
     let bigs = d.big && chance(r, 1, 8);
     i.script_sig = if chance(r, 1, 2) { Script::new() } else { script_bytes(r, bigs) };
